@@ -1,0 +1,18 @@
+//go:build verif
+
+package ebpf
+
+import "github.com/cilium/ebpf"
+
+// VerifSetMaps hands the loader already-created maps (by the names the
+// object declares) instead of loading and attaching the object in Load
+// (verification harness only).
+func (l *Loader) VerifSetMaps(maps map[string]*ebpf.Map) {
+	l.subscriberPools = maps["subscriber_pools"]
+	l.vlanSubscriberPools = maps["vlan_subscriber_pools"]
+	l.ipPools = maps["ip_pools"]
+	l.statsMap = maps["stats_map"]
+	l.serverConfigMap = maps["server_config"]
+	l.circuitIDMap = maps["circuit_id_map"]
+	l.circuitIDSubscribers = maps["circuit_id_subscribers"]
+}
